@@ -122,6 +122,13 @@ def step (_ : Unit) (line : String) : Unit × String :=
       match DType.ofString? t, parseNats bs with
       | some t, some bs => showE (bytesDecode t bs)
       | _, _ => "bad-op"
+    | ["decimals", d0, tol, xs] =>
+      match d0.toInt?, parseRat tol, parseRats xs with
+      | some d0, some tol, some xs =>
+        match decimalsFrom 400 d0 xs tol with
+        | some d => s!"ok {d}"
+        | none => "ok None"
+      | _, _, _ => "bad-op"
     | ["smallest", xs] =>
       match parseInts xs with
       | some xs => match toSmallest xs with
